@@ -78,7 +78,7 @@ def proc_snapshot(pgid):
                         wchan = f.read().strip()
                 except OSError:
                     wchan = "?"
-                snap[(pid, tid)] = {"state": state, "cpu": utime + stime, "syscall": sc[:3], "wchan": wchan}
+                snap[(pid, tid)] = {"state": state, "cpu": utime + stime, "syscall": sc[:3], "args": sc[1:7], "wchan": wchan}
         except (ProcessLookupError, FileNotFoundError, PermissionError):
             continue
     return snap
@@ -196,6 +196,37 @@ def diagnose(p, logdir):
     surv_futex = bool(survivors) and all(
         all(v["syscall"][0] == "202" for (pp, _t), v in live2.items() if pp == pid) and cpu_by_pid[pid] == 0
         for pid in survivors)
+
+    def blocks_forever(pid, v):
+        """the thread sits in a blocking syscall without a time-out that only another member of the
+        process group could end"""
+        sc = v["syscall"]
+        try:
+            no = int(sc[0])
+            args = [int(x, 16) for x in v.get("args", [])]
+        except ValueError:
+            return False
+        if no == 202:  # futex(uaddr, op, val, timeout, ...)
+            return len(args) > 3 and args[3] == 0
+        if no == 0:  # read(fd, ...): on a pipe of the group
+            t = fd_target(pid, args[0]) if args else None
+            return bool(t and t.startswith("pipe:"))
+        if no == 1:  # write(fd, ...) blocked on a full pipe
+            t = fd_target(pid, args[0]) if args else None
+            return bool(t and t.startswith("pipe:"))
+        if no == 61:  # wait4(pid, status, options, ...) without WNOHANG
+            return len(args) > 2 and not (args[2] & 1)
+        if no == 247:  # waitid(..., options) without WNOHANG
+            return len(args) > 3 and not (args[3] & 1)
+        if no == 7:  # poll(fds, n, timeout) with timeout -1
+            return len(args) > 2 and (args[2] & 0xFFFFFFFF) == 0xFFFFFFFF
+        if no in (23, 270):  # select / pselect6 with a NULL timeout
+            return len(args) > 4 and args[4] == 0
+        if no == 232:  # epoll_wait(..., timeout) with -1
+            return len(args) > 3 and (args[3] & 0xFFFFFFFF) == 0xFFFFFFFF
+        return False
+
+    all_forever = bool(live2) and all(blocks_forever(k[0], v) for k, v in live2.items())
     proven = False
     why = "not decided"
     mechanism = None
@@ -210,6 +241,12 @@ def diagnose(p, logdir):
             mechanism = "writer_lock_held_by_dead_process"
             why = ("every thread of every surviving worker waits in futex on the queue's writer lock whose holder is dead, "
                    "so they never exit; the parent only polls the queue and the liveness check; no progress possible")
+        elif all_forever and cpu_used == 0:
+            proven = True
+            mechanism = "all_threads_blocked_without_timeout"
+            why = ("every thread of every living process of the group sits in a blocking system call without a time-out "
+                   "(futex / pipe read / pipe write / wait4) that only another member of the group could end; no CPU consumed: "
+                   + ", ".join(sorted({f"{k[0]}:{v['syscall'][0]}" for k, v in live2.items()})))
     return {"proven_deadlock": proven, "why": why, "mechanism": mechanism, "cpu_ticks_between_samples": cpu_used, "all_blocked": blocked,
             "parent_syscall": parent_sc, "parent_fd": parent_fd, "pipe_writers": pipe_writers, "survivors": survivors,
             "threads": {f"{k[0]}/{k[1]}": v for k, v in list(s2.items())[:12]}, "stacks": stacks[-1500:]}
